@@ -418,6 +418,21 @@ fn encode_udp_packet_simple(payload: &[u8]) -> Result<Bytes> {
     Ok(buf.freeze())
 }
 
+/// Wrappers exposing the private wire-format functions to the verification harness.
+#[cfg(feature = "verif")]
+pub mod verif_api {
+    use super::*;
+    pub async fn read_initial_request(reader: &mut StreamReader) -> Result<SocketAddr> {
+        super::read_initial_request(reader).await
+    }
+    pub async fn read_udp_packet(reader: &mut StreamReader) -> Result<Vec<u8>> {
+        super::read_udp_packet(reader).await
+    }
+    pub fn encode_udp_packet_simple(payload: &[u8]) -> Result<Bytes> {
+        super::encode_udp_packet_simple(payload)
+    }
+}
+
 #[cfg(test)]
 mod tests {
     use super::*;
